@@ -634,7 +634,10 @@ class Explorer(object):
                 if op == 'load':
                     addr = self.ev(ins.ops[0], st)
                     self._dereferenced(st, addr)
-                    if addr in st.mem:
+                    folded = self._const_load(addr, st) if root_of(addr)[0] == 'g' and addr[0] in ('idx', 'fld') else None
+                    if folded is not None:
+                        st.env[ins.res] = folded
+                    elif addr in st.mem:
                         st.env[ins.res] = st.mem[addr]
                     else:
                         st.env[ins.res] = ('ld', addr, self._version(st, addr))
@@ -828,6 +831,60 @@ class Explorer(object):
                     # (x != 0) for an i1-like compare chain: icmp ne (icmp ..), 0
                     if a[0] == 'icmp' and b[1] == 0:
                         st.decided[a] = True
+
+    def _const_load(self, addr, st):
+        """the value read from an element of a constant global table when every index on the way is known on this path"""
+        steps = []
+        a = addr
+        while a[0] in ('idx', 'fld'):
+            steps.append(a)
+            a = a[1]
+        if a[0] != 'g':
+            return None
+        gname = a[1]
+        tree = None
+        mod = None
+        for m in self.mods:
+            g = m.globals.get(gname)
+            if g and g.get('const') and g.get('init') and g.get('ty'):
+                if '_tree' not in g:
+                    from .ir import const_tree
+                    try:
+                        g['_tree'] = const_tree(g['ty'], g['init'])
+                    except Exception:
+                        g['_tree'] = None
+                tree, mod = g['_tree'], m
+                break
+        if tree is None:
+            return None
+        for s_ in reversed(steps):
+            if not isinstance(tree, list):
+                return None
+            if s_[0] == 'idx':
+                i = s_[2]
+                k = i[1] if is_const(i) else st.known.get(i)
+                if k is None:
+                    w = i
+                    while w[0] == 'bin' and w[1] in ('sext', 'zext', 'trunc'):
+                        w = w[2]
+                    k = w[1] if is_const(w) else st.known.get(w)
+                if k is None or not (0 <= k < len(tree)):
+                    return None
+                tree = tree[k]
+            else:
+                names = mod.struct_fields.get('%struct.' + s_[2]) or mod.struct_fields.get('%union.' + s_[2])
+                if not names or s_[3] not in names:
+                    return None
+                k = names.index(s_[3])
+                if k >= len(tree):
+                    return None
+                tree = tree[k]
+        if tree is None or isinstance(tree, list):
+            return None
+        try:
+            return self.ev(tree, st)
+        except Exception:
+            return None
 
     def _dereferenced(self, st, addr):
         # the program went through this pointer: on the rest of the path it is not NULL (a later 'if (p)' has one outcome)
